@@ -45,6 +45,8 @@ class _End:
         self.fail_exc = BrokenPipeError
         self.sent = bytearray()  # everything successfully written by this end
         self.chunk: Optional[int] = None  # max bytes a read WITHOUT MSG_WAITALL returns (segment size)
+        self.space: Optional[int] = None  # room in the send buffer; only consulted by NON-BLOCKING sends
+        self.space_per_round: Optional[int] = None
         self._hash = None
 
     # --- identity ---------------------------------------------------------
@@ -128,6 +130,19 @@ class _End:
         if self.closed:
             self.net.ev("send", self, b, "EBADF")
             raise OSError(errno.EBADF, "Bad file descriptor")
+        if (flags & _real_socket.MSG_DONTWAIT) and self.space is not None:
+            # a non-blocking send takes what the send buffer has room for and then reports EAGAIN
+            if len(b) > self.space:
+                part = b[: self.space]
+                self.space = 0
+                if part:
+                    self.sent += part
+                    if self.peer is not None and not self.peer.closed:
+                        self.peer.inbuf += part
+                    self.net.ev("send", self, part, None)
+                self.net.ev("send", self, b"", "BlockingIOError")
+                raise BlockingIOError(errno.EAGAIN, "Resource temporarily unavailable")
+            self.space -= len(b)
         if self.fail_after is not None:
             if self.fail_after <= 0:
                 self.net.ev("send", self, b, self.fail_exc.__name__)
@@ -322,6 +337,9 @@ class ManagerSelect:
         if r:
             # top of the run loop: hand the baton back to the driver, wait for a command
             cmd = net.mgr_yield()
+            for e_ in net.ends.values():
+                if e_.space_per_round is not None:
+                    e_.space = e_.space_per_round
             if cmd.get("stop"):
                 net.stop_manager()
                 return [], [], []
